@@ -85,11 +85,24 @@ func newSchedCronWorld(workers int, r *rng.R) *schedWorld {
 		}
 		w.cents = append(w.cents, cronEnt{name: "e" + strconv.Itoa(i), entry: cron.NewEntry(T0, row)})
 	}
+	// e5: same identity as e1 (rejected while e1 is stored); e6: undecodable mutator metadata (always rejected)
+	if len(w.cents) >= 1 {
+		_, raw, _ := parseCronExpr("*/5 * * * *")
+		p1 := def.TaskUpdateParam{WorkId: option.Some("w1")}
+		if row, err := (cron.RowRaw{Param: p1, Schedule: raw}).Parse(); err == nil {
+			w.cents[0] = cronEnt{name: "e1", entry: cron.NewEntry(T0, row)}
+			w.cents = append(w.cents, cronEnt{name: "e5", entry: cron.NewEntry(T0, row)})
+		}
+		pb := def.TaskUpdateParam{WorkId: option.Some("w6"), Meta: option.Some(map[string]string{"ngicks.RandomizeScheduledAt.min": "abc"})}
+		if row, err := (cron.RowRaw{Param: pb, Schedule: raw}).Parse(); err == nil {
+			w.cents = append(w.cents, cronEnt{name: "e6", entry: cron.NewEntry(T0, row)})
+		}
+	}
 	st, _ := cron.NewCronStore(nil)
 	st.VerifSetClock(w.clk)
 	w.cron = st
 	st.EditTask(func(_ []*cron.Entry) []*cron.Entry { return []*cron.Entry{w.cents[0].entry, w.cents[1].entry} })
-	w.target = scheduler.NewVolatileTaskRepo(st)
+	w.target = scheduler.NewVolatileTaskRepo(&volProxy{CronStore: st, w: w})
 	w.sch = scheduler.NewScheduler(&schedProxy{w}, &simDispatcher{w})
 	w.sch.VerifSetClock(w.clk)
 	return w
@@ -343,6 +356,27 @@ func outcomeErr(tok string) error {
 	}
 	s, _ := proto.UnStr(strings.TrimPrefix(tok, "err:"))
 	return errors.New(s)
+}
+
+// volProxy sits between volatileTaskRepo and the cron store: every Peek / Pop is an injection point,
+// so that edits can land between the Peek and the Pop of one MarkAsDispatched.
+type volProxy struct {
+	*cron.CronStore
+	w *schedWorld
+}
+
+func (v *volProxy) Peek(ctx context.Context) (def.Task, error) {
+	v.w.before()
+	t, err := v.CronStore.Peek(ctx)
+	v.w.log("q peek - -> " + proto.Res(err))
+	return t, err
+}
+
+func (v *volProxy) Pop(ctx context.Context) (def.Task, error) {
+	v.w.before()
+	t, err := v.CronStore.Pop(ctx)
+	v.w.log("q pop - -> " + proto.Res(err))
+	return t, err
 }
 
 type simDispatcher struct{ w *schedWorld }
@@ -745,7 +779,7 @@ var schedTimes = []time.Duration{5 * time.Second, 10 * time.Second, 15 * time.Se
 func (g *schedGen) userOp() string {
 	r := g.r
 	if g.cron {
-		all := []string{"e1", "e2", "e3", "e4"}
+		all := []string{"e1", "e2", "e3", "e4", "e5", "e6"}
 		var add, rem []string
 		for _, n := range all {
 			switch r.Intn(5) {
